@@ -103,7 +103,14 @@ fn panic_msg(e: Box<dyn std::any::Any + Send>) -> String {
     }
 }
 
+fn thread_cpu_micros() -> u128 {
+    let mut ts = libc::timespec { tv_sec: 0, tv_nsec: 0 };
+    unsafe { libc::clock_gettime(libc::CLOCK_THREAD_CPUTIME_ID, &mut ts) };
+    ts.tv_sec as u128 * 1_000_000 + ts.tv_nsec as u128 / 1000
+}
+
 pub struct CallOutcome {
+    pub cpu_micros: u128,
     pub ret: Value,
     pub text: Option<String>,
     pub hooks: Vec<String>,
@@ -116,11 +123,13 @@ pub fn call_generator(src: &str, opts: &Opts, detail: u64, budget: u64) -> CallO
     let wo = opts.to_write_options();
     wgsl_to_wgpu::verif::start(detail, budget);
     let t0 = std::time::Instant::now();
+    let c0 = thread_cpu_micros();
     let r = catch_unwind(AssertUnwindSafe(|| match &opts.include {
         Some(p) => wgsl_to_wgpu::create_shader_module(src, p, wo),
         None => wgsl_to_wgpu::create_shader_module_embedded(src, wo),
     }));
     let micros = t0.elapsed().as_micros();
+    let cpu_micros = thread_cpu_micros() - c0;
     let work = wgsl_to_wgpu::verif::work_done();
     let hooks = wgsl_to_wgpu::verif::take();
     let mut renders = Value::Null;
@@ -175,6 +184,7 @@ pub fn call_generator(src: &str, opts: &Opts, detail: u64, budget: u64) -> CallO
         Err(p) => (json!({"kind":"panic","msg":panic_msg(p)}), None),
     };
     CallOutcome {
+        cpu_micros,
         ret,
         text,
         hooks,
@@ -328,6 +338,7 @@ fn cmd_gen(args: &[String]) {
         obs.insert("ret".into(), oc.ret.clone());
         obs.insert("work".into(), json!(oc.work.to_vec()));
         obs.insert("micros".into(), json!(oc.micros as u64));
+        obs.insert("cpu_micros".into(), json!(oc.cpu_micros as u64));
         obs.insert("oracle".into(), orc.json.clone());
         if !oc.renders.is_null() {
             obs.insert("renders".into(), oc.renders.clone());
